@@ -2,6 +2,7 @@ SPECIFICATION Spec
 CONSTANTS
   MaxLen = 3
   GuardMode = "ascode"
+  CacheBeforeGuard <- NoApis
   NormAfterGuard <- NoApis
   Classes <- AllClasses
 CONSTRAINT Emit
